@@ -17,6 +17,7 @@ def run(ctx):
                 "gc_count is bumped by gc and by reorder in both managers. E-UNITS on the counting code.")
     epost.check_clear_if_invalid(ctx, F)
     epost.check_sat_count_uses(ctx, F)
+    epost.check_count_cache_users(ctx, F)
     eevent.check_manager(ctx, F, "oxidd_manager_index")
     eevent.check_manager(ctx, F, "oxidd_manager_pointer")
     ctx.explain("E-SAT: sat_count_edge::inner (BDD, BCDD, ZBDD) interpreted with symbolic numbers: terminal base cases, "
